@@ -1,5 +1,9 @@
 import Driver.Util
+import Driver.C03
 import Torf.Model.Generate
+import Torf.Model.GenHistory
+import Torf.Model.PipelineHF
+import Torf.Spec.Pipeline
 open Lean Torf
 namespace Driver.C01
 
@@ -30,10 +34,129 @@ def collect (j : Json) : Except String Json := do
     | .tooMany => jobj [("kind", "tooMany")]
   return jobj [("model", out)]
 
+/-! ### histories (Model/GenHistory.lean) -/
+
+/-- bytes of version `v` of file `j`: elements `(v * 2^20 + j) * 2^40 + k`; `pieceJson` then sends
+    runs `[v * 2^20 + j, offset, length]` -/
+def verBase : Nat := 1048576
+
+def verFile (v j sz : Nat) : List Nat := (List.range sz).map fun k => (v * verBase + j) * elemBase + k
+
+/-- history op: ["replace", j, v] | ["rewrite", j, v] | ["new"] | ["touch", s, j] | ["close", s] | ["gen"] -/
+def parseHOp (sizes : List Nat) (x : Json) : Except String (GenHistory.Op Nat) := do
+  let a ← x.getArr?
+  let tag ← (a[0]?.getD Json.null).getStr?
+  let n (i : Nat) : Except String Nat := (a[i]?.getD Json.null).getNat?
+  match tag with
+  | "replace" => do let j ← n 1; let v ← n 2; return .replace j (verFile v j (sizes.getD j 0))
+  | "rewrite" => do let j ← n 1; let v ← n 2; return .rewrite j (verFile v j (sizes.getD j 0))
+  | "new" => return .newStream
+  | "touch" => do let s ← n 1; let j ← n 2; return .touch s j
+  | "close" => do let s ← n 1; return .close s
+  | "gen" => return .generate
+  | _ => throw s!"bad history op {tag}"
+
+def outcomeJson : Generate.Outcome (List Nat) → Json
+  | .stored h => jobj [("kind", "stored"), ("pieces", jarr (h.map pieceJson))]
+  | .cancelled => jobj [("kind", "cancelled")]
+  | .tooMany => jobj [("kind", "tooMany")]
+
+/-- op `c01.history` : {L, cap, sizes, ops, shared?} ↦ for every "gen" of the history the model's
+    outcome (`runHist`, digest = the piece itself) and whether it equals the specification
+    (`specHist`: chunks of the current bytes) -/
+def history (j : Json) : Except String Json := do
+  let L ← getNat j "L"
+  let cap ← getNat j "cap"
+  let sizes ← getNats j "sizes"
+  let shared := (getBool j "shared").toOption.getD false
+  let ops ← (← getArr j "ops").mapM (parseHOp sizes)
+  let files0 := sizes.zipIdx.map fun (sz, i) => verFile 0 i sz
+  let model := GenHistory.runHist shared (fun p => p) L cap (GenHistory.World.init files0) ops
+  let spec := GenHistory.specHist (fun p => p) L files0 ops
+  return jobj [("model", jarr (model.map outcomeJson)),
+               ("specEq", jbool (model == spec)),
+               ("spec", if model == spec then Json.null else jarr (spec.map outcomeJson)),
+               ("count", jnat (Generate.torrentPieces sizes.sum L)),
+               ("hyp", jbool (L > 0 && sizes.sum > 0 && GenHistory.sizesKept (files0.map List.length) ops))]
+
+/-! ### schedules with hasher faults (Model/PipelineHF.lean) -/
+
+open Torf.Pipeline Torf.PipelineHF in
+/-- op `c01.replayx`: replay a logged label sequence of a `generate()` run in the pipeline model
+    with hasher faults.  {cfg (as c03.replay), hashFault: [[hasher index, j], …], L, sizes, trace}.
+    Reply: ok / where the replay broke; terminal; result; dead, lost; what `Torrent.generate`
+    does with that result (`generateX`, digest = the piece itself) and whether the theorem's
+    disjunction holds for it (`sound`). -/
+def replayx (j : Json) : Except String Json := do
+  let base ← Driver.C03.parseCfg (← j.getObjVal? "cfg")
+  let hf ← (← getArr j "hashFault").mapM fun x => do
+    let a ← x.getArr?
+    if h : a.size = 2 then return ((← a[0].getNat?), (← a[1].getNat?))
+    else throw "hashFault entry must be a pair"
+  let cfg : CfgX := { base := base, hashFault := fun i k => hf.contains (i, k) }
+  let L ← getNat j "L"
+  let sizes ← getNats j "sizes"
+  let files := mkFiles sizes
+  let trace ← getArr j "trace"
+  let mut x := initX cfg
+  let mut idx := 0
+  for e in trace do
+    let a ← e.getArr?
+    if a.size < 3 then throw "trace entry too short"
+    let tidS ← a[0]!.getStr?
+    let op ← a[1]!.getStr?
+    let dec ← a[2]!.getStr?
+    let tid ← Driver.C03.parseTid tidS
+    let expected := opNameX x tid
+    if expected != op then
+      return jobj [("ok", jbool false), ("at", jnat idx), ("why", jstr "op-mismatch"),
+                   ("modelOp", jstr expected), ("implOp", jstr op), ("thread", jstr tidS)]
+    match stepX cfg x { tid := tid, timeout := dec == "timeout" } with
+    | none =>
+      return jobj [("ok", jbool false), ("at", jnat idx), ("why", jstr "not-enabled-in-model"),
+                   ("thread", jstr tidS), ("implOp", jstr op), ("decision", jstr dec)]
+    | some x' =>
+      x := x'
+      if a.size ≥ 6 then
+        match a[3]!.getNat?, a[4]!.getNat?, a[5]!.getBool? with
+        | .ok pq, .ok hq, .ok fin =>
+          if pq != x.base.pq.length || hq != x.base.hq.length || fin != x.base.fin then
+            return jobj [("ok", jbool false), ("at", jnat idx), ("why", jstr "state-mismatch"),
+                         ("model", jobj [("pq", jnat x.base.pq.length), ("hq", jnat x.base.hq.length),
+                                         ("fin", jbool x.base.fin)]),
+                         ("impl", jobj [("pq", jnat pq), ("hq", jnat hq), ("fin", jbool fin)]),
+                         ("thread", jstr tidS), ("implOp", jstr op)]
+        | _, _, _ => pure ()
+    idx := idx + 1
+  let result : Json := match resultX? x with
+    | none => Json.null
+    | some (.hasherExc h) => jobj [("hasherExc", jstr s!"hasher{h+1}")]
+    | some (.base r) => Driver.C03.resultJson (some r)
+  let gen := generateX (fun p => p) L files x
+  let spec := chunks L files.flatten
+  let n := (Generate.readerTasks L files).length
+  let (genJ, sound) : Json × Bool := match gen, resultX? x with
+    | some (.outcome (.stored h)), _ => (jobj [("kind", "stored"), ("pieces", jarr (h.map pieceJson))], h == spec)
+    | some (.outcome .cancelled), some (.base (.returned c)) => (jobj [("kind", "cancelled")], c.length < n)
+    | some (.outcome .cancelled), _ => (jobj [("kind", "cancelled")], false)
+    | some (.outcome .tooMany), _ => (jobj [("kind", "tooMany")], false)
+    | some .raised, _ => (jobj [("kind", "raised")], true)
+    | none, _ => (Json.null, true)
+  -- a run that lost a piece must not store anything (C01_hash_fault_lost_not_success)
+  let lostOk := x.lost.isEmpty || (match gen with | some (.outcome (.stored _)) => false | _ => true)
+  return jobj [("ok", jbool true), ("terminal", jbool (terminalX x)), ("result", result),
+               ("dead", jarr (x.dead.map fun h => jstr s!"hasher{h+1}")), ("lost", jnats x.lost),
+               ("canProgress", jbool (x.reraised.isNone && canProgress base x.base)),
+               ("generate", genJ), ("sound", jbool (sound && lostOk)),
+               ("spec", jarr (spec.map pieceJson)),
+               ("hyp", jbool (L > 0 && sizes.sum > 0 && base.items == List.replicate n .data))]
+
 def handle (op : String) (j : Json) : Except String Json :=
   match op with
   | "c01.iter" => iter j
   | "c01.collect" => collect j
+  | "c01.history" => history j
+  | "c01.replayx" => replayx j
   | _ => throw s!"unknown op {op}"
 
 end Driver.C01
